@@ -609,7 +609,13 @@ func Names() []*File {
 	}}
 	ns.Nested[0].Fields = append(ns.Nested[0].Fields, oo("has", "mutable", 5, "sint32"), oo("has", "interface", 6, "string"))
 	nm := &File{Name: "verif/nm/nm.proto", Pkg: "verif.nm", GoPkg: "nm", Group: "nm", Tags: []string{"names"},
-		Msgs: []M{m, lm, shapes, nest, ns}}
+		Msgs: []M{m, lm, shapes, nest, ns,
+			// names whose leading characters all occur in the package name "verif.nm" (prefix
+			// stripping must not be character-set stripping), one of them lower case
+			{Name: "Params", Fields: []F{one("a", 1, "int32")}},
+			{Name: "nParams", Fields: []F{one("b", 1, "string"), one("p", 2, "message", ".verif.nm.Params")}},
+			{Name: "mini", Fields: []F{one("v", 1, "int32"), rep("r", 2, "message", ".verif.nm.nParams")}},
+		}}
 	return []*File{nm}
 }
 
@@ -645,6 +651,8 @@ func Cross() []*File {
 		Msgs: []M{
 			{Name: "Leaf", Fields: []F{one("id", 1, "uint64"), one("name", 2, "string"), one("side", 3, "enum", ".verif.xb.Side"), mp("attrs", 4, "string", "string")}},
 			{Name: "Tree", Fields: []F{one("leaf", 1, "message", ".verif.xb.Leaf"), rep("kids", 2, "message", ".verif.xb.Tree"), mp("named", 3, "string", "message", ".verif.xb.Tree")}},
+			// linear recursion: reaches any nesting depth without fan-out (rapidproto's nesting limit)
+			{Name: "Chain", Fields: []F{one("next", 1, "message", ".verif.xb.Chain"), rep("nums", 2, "int32"), rep("tags", 3, "string"), rep("sides", 4, "enum", ".verif.xb.Side"), one("w", 5, "fixed64")}},
 		}}
 	xa := &File{Name: "verif/xa/xa.proto", Pkg: "verif.xa", GoPkg: "xa", Group: "x", Tags: []string{"cross"},
 		Deps: []string{"verif/xb/xb.proto", "google/protobuf/any.proto", "google/protobuf/timestamp.proto", "google/protobuf/duration.proto", "google/protobuf/field_mask.proto", "verif/xa/xa2.proto"},
@@ -666,8 +674,16 @@ func Cross() []*File {
 				one("mask", 14, "message", ".google.protobuf.FieldMask"),
 				one("same_pkg", 15, "message", ".verif.xa.Second"),
 				one("self", 16, "message", ".verif.xa.Holder"),
+				// local types with the same Go names as imported ones used above (Leaf, Side)
+				one("local_leaf", 17, "message", ".verif.xa.Leaf"),
+				one("local_side", 18, "enum", ".verif.xa.Side"),
+				rep("local_sides", 19, "enum", ".verif.xa.Side"),
 			}},
-		}}
+			{Name: "Leaf", Fields: []F{one("note", 1, "string"), one("weight", 2, "sint64")}},
+			{Name: "Times", Fields: []F{rep("ds", 1, "message", ".google.protobuf.Duration"), rep("tss", 2, "message", ".google.protobuf.Timestamp"),
+				mp("md", 3, "string", "message", ".google.protobuf.Duration"), one("d", 4, "message", ".google.protobuf.Duration"), one("t", 5, "message", ".google.protobuf.Timestamp")}},
+		},
+		Enums: []E{{Name: "Side", Values: []EV{{"SIDE_NONE", 0}, {"SIDE_UP", 5}, {"SIDE_DOWN", 9}, {"SIDE_FAR", -3}}}}}
 	xa2 := &File{Name: "verif/xa/xa2.proto", Pkg: "verif.xa", GoPkg: "xa", Group: "x", Tags: []string{"cross"},
 		Deps: []string{"verif/xb/xb.proto", "google/protobuf/any.proto"},
 		Msgs: []M{
